@@ -207,3 +207,99 @@ func c07GenTree(r *Rng, root string, index int) (*GenTree, c07Regress) {
 	g.put("Makefile", lines(cvsID, "", "SUBDIR+=\tcat", "SUBDIR+=\tdevel", ""))
 	return g, reg
 }
+
+// ---------- registry pairs (in-process history) ----------
+//
+// Diagnostics that depend on a per-run registry: a name is registered by one
+// file (a .PHONY target, a created tool, a defined variable, a used license, a
+// declared option, a SUBST class, a PLIST variable, a _VARGROUPS entry, a
+// BUILD_DEFS entry, a distfile hash) and its absence is reported elsewhere.
+// Two trees with identical layout: in tree A every package cat/reg-<feature>
+// REGISTERS the name, in tree B the same package USES it unregistered. Run in
+// one process in the orders A,B,A and B,A,B, every run must print what a fresh
+// process prints: a registry that survives `G = NewPkglint(...)` makes the
+// later "use" runs lose (or gain) diagnostics.
+
+var c07RegistryFeatures = []string{"target", "target2", "tool", "variable", "license", "option", "subst", "plistvar", "vargroup", "builddefs", "distfile", "pkgname"}
+
+// c07RegistryPackage writes cat/reg-<feature> into t; register selects the variant.
+func c07RegistryPackage(t *Tree, feature string, register bool) {
+	dir := "cat/reg-" + feature
+	var extra []string
+	either := func(reg, use []string) {
+		if register {
+			extra = append(extra, reg...)
+		} else {
+			extra = append(extra, use...)
+		}
+	}
+	switch feature {
+	case "target":
+		either([]string{".PHONY: regen", "regen:", "\t${RUN} ${ECHO} regenerating"}, []string{"regen:", "\t${RUN} ${ECHO} regenerating"})
+	case "target2":
+		either([]string{"gen-docs: .PHONY", "\t${RUN} ${ECHO} docs", "", "c07-extra: .PHONY", "\t${RUN} ${ECHO} extra"}, []string{"gen-docs:", "\t${RUN} ${ECHO} docs", "", "c07-extra:", "\t${RUN} ${ECHO} extra"})
+	case "tool":
+		either([]string{"TOOLS_CREATE+=\tc07tool", "TOOLS_PATH.c07tool=\t${PREFIX}/bin/c07tool", "USE_TOOLS+=\tc07tool", "", "do-build:", "\t${RUN} c07tool --version"},
+			[]string{"USE_TOOLS+=\tc07tool", "", "do-build:", "\t${RUN} c07tool --version"})
+	case "variable":
+		either([]string{"C07_SHARED_VAR=\tvalue", "C07_OTHER_DIRS=\tdir", "CFLAGS+=\t${C07_SHARED_VAR} ${C07_OTHER_DIRS}"}, []string{"CFLAGS+=\t${C07_SHARED_VAR} ${C07_OTHER_DIRS}"})
+	case "license":
+		// registers the use of licenses/isc (checked by -Cglobal -r from the top) / uses another one
+	case "option":
+		t.Write(dir+"/options.mk", lines(cvsID, "", "PKG_OPTIONS_VAR=\tPKG_OPTIONS.reg-option",
+			condStrGo(register, "PKG_SUPPORTED_OPTIONS=\tc07opt other", "PKG_SUPPORTED_OPTIONS=\tother"), "", ".include \"../../mk/bsd.options.mk\"", "",
+			".if !empty(PKG_OPTIONS:Mc07opt)", "CONFIGURE_ARGS+=\t--enable-c07", ".endif", "", ".if !empty(PKG_OPTIONS:Mother)", "CONFIGURE_ARGS+=\t--enable-other", ".endif"))
+		extra = append(extra, ".include \"options.mk\"")
+	case "subst":
+		either([]string{"SUBST_CLASSES+=\tc07cls", "SUBST_STAGE.c07cls=\tpre-configure", "SUBST_FILES.c07cls=\tfile", "SUBST_SED.c07cls=\t-e s,a,b,"},
+			[]string{"SUBST_STAGE.c07cls=\tpre-configure", "SUBST_FILES.c07cls=\tfile", "SUBST_SED.c07cls=\t-e s,a,b,"})
+	case "plistvar":
+		either([]string{"PLIST_VARS+=\tc07cond", "PLIST.c07cond=\tyes"}, []string{"C07_NOTHING=\tyes"})
+	case "vargroup":
+		t.Write(dir+"/module.mk", lines(cvsID, "", "_VARGROUPS+=\t\tc07reg", "_PKG_VARS.c07reg=\tC07_VG_A",
+			condStrGo(register, "_USE_VARS.c07reg=\tC07_VG_USED", "_USE_VARS.c07reg=\tC07_VG_USED C07_VG_B"), "", "C07_VG_A?=\t${C07_VG_USED}"))
+	case "builddefs":
+		either([]string{"BUILD_DEFS+=\tUSER_SETTABLE_B", "CFLAGS+=\t-DX=${USER_SETTABLE_B}"}, []string{"CFLAGS+=\t-DX=${USER_SETTABLE_B}"})
+	case "distfile", "pkgname":
+	}
+	t.WritePackage(dir, extra)
+	switch feature {
+	case "license":
+		mk := t.Read(dir + "/Makefile")
+		t.Write(dir+"/Makefile", strings.Replace(mk, "LICENSE=\t2-clause-bsd", condStrGo(register, "LICENSE=\tisc", "LICENSE=\tmit"), 1))
+	case "plistvar":
+		t.Write(dir+"/PLIST", lines("@comment $"+"NetBSD$", "bin/program", "${PLIST.c07cond}bin/conditional"))
+	case "distfile":
+		// the same distfile as cat/reg-pkgname, with an equal (register) or a different (use) hash: -Cglobal
+		t.Write(dir+"/distinfo", lines("$"+"NetBSD$", "", "BLAKE2s (c07-shared-1.0.tar.gz) = "+condStrGo(register, "aaaa", "bbbb"), "SHA512 (c07-shared-1.0.tar.gz) = "+condStrGo(register, "aaaa", "bbbb"), "Size (c07-shared-1.0.tar.gz) = 1234 bytes"))
+	case "pkgname":
+		t.Write(dir+"/distinfo", lines("$"+"NetBSD$", "", "BLAKE2s (c07-shared-1.0.tar.gz) = aaaa", "SHA512 (c07-shared-1.0.tar.gz) = aaaa", "Size (c07-shared-1.0.tar.gz) = 1234 bytes"))
+	}
+}
+
+func condStrGo(c bool, a, b string) string {
+	if c {
+		return a
+	}
+	return b
+}
+
+// c07GenRegistryPair writes the two trees; the rest of the trees (infrastructure, other packages) is identical.
+func c07GenRegistryPair(r *Rng, rootA, rootB string, index int) (*GenTree, *GenTree) {
+	ga, _ := c07GenTree(r, rootA, 2*index) // even index: without the regression triggers
+	if err := CopyTree(rootA, rootB); err != nil {
+		panic(err)
+	}
+	gb := &GenTree{Tree: &Tree{Root: rootB}, Pkgs: ga.Pkgs, Features: map[string]int{}}
+	var subdirs []string
+	for _, f := range c07RegistryFeatures {
+		c07RegistryPackage(ga.Tree, f, true)
+		c07RegistryPackage(gb.Tree, f, false)
+		subdirs = append(subdirs, "SUBDIR+=\treg-"+f)
+	}
+	for _, t := range []*Tree{ga.Tree, gb.Tree} {
+		cm := t.Read("cat/Makefile")
+		t.Write("cat/Makefile", strings.Replace(cm, "\n.include \"../mk/misc/category.mk\"", strings.Join(subdirs, "\n")+"\n\n.include \"../mk/misc/category.mk\"", 1))
+	}
+	return ga, gb
+}
